@@ -335,6 +335,51 @@ def audit(ctx, f, recv):
                for x in asrc(recv, bounds[-1]).calls}) if bounds else ""), c.where)
 
 
+# ------------------------------------------------------------------------------------------ HS-FDS
+def handshake_fds_kept(ctx, f):
+    """HANDOFF:handshake-fds-kept (added after seeded change C14b): the read that delivers the last handshake line can
+    also deliver the first bytes of the first message and the fds attached to them. Whatever `recvmsg` returns during
+    the handshake must therefore reach `Common.received_fds`: the `extend` may depend on the fd list being empty and
+    on nothing else (not on negotiated state that is only set after the line has been parsed)."""
+    rc = [b for b in f.all_bodies("zbus") if b.root == "zbus::connection::handshake::common::Common::read_commands" and b.kind == "coroutine"]
+    n = 0
+    for b in rc:
+        recvs = [c for c in mir.calls(b) if is_recvmsg(c)]
+        for ex in mir.calls(b):
+            if not (ex.is_("extend", "append", "extend_from_slice") and ex.args):
+                continue
+            o = mir.origin(b, ex.args[0])
+            if not (o[0] in ("place", "ref") and "received_fds" in mir.place_fields(o[1])):
+                continue
+            n += 1
+            bad = None
+            for sb, t in mir.switches(b):
+                if t[2] != "bool":
+                    continue
+                tt, ft = mir.bool_switch_edges(t)
+                doms = [e for e in (tt, ft) if e is not None and mir.block_dominates(b, e, ex.b)]
+                both = all(e is not None and mir.block_dominates(b, e, ex.b) for e in (tt, ft))
+                if not doms or both:
+                    continue
+                # only tests made after the read matter
+                if not any(sb in mir.reachable(b, [r.b]) for r in recvs):
+                    continue
+                co = mir.origin(b, t[1])
+                if co[0] == "rv" and co[1][0] == "un" and co[1][1] == "Not":
+                    co = mir.origin(b, co[1][2])
+                if co[0] == "call" and co[1].is_("is_empty"):
+                    continue
+                # tracing-macro conditions sit in expansions
+                if (t[6] or "").find("event!") >= 0 or (t[6] or "").find("trace!") >= 0 or (t[6] or "").find("Await") >= 0 or (t[6] or "").find("QuestionMark") >= 0:
+                    continue
+                bad = (sb, t[5])
+            ctx.ob("HANDOFF", "read_commands:handshake-fds-kept", bad is None,
+                   "fds returned by recvmsg during the handshake are appended to received_fds whenever there are any" if bad is None else
+                   "keeping the fds read during the handshake also depends on a condition tested at line %d: fds that arrive with the tail of the "
+                   "handshake are dropped and the first message loses them" % bad[1], ex.where)
+    ctx.floor("HANDOFF", "appends to Common.received_fds in read_commands", n, 1)
+
+
 # ------------------------------------------------------------------------------------------ NO-TRUNC
 def no_trunc(ctx, f, recv):
     """NO-TRUNC (added after seeded change C14): bytes moved from the handshake left-over into the message buffer must
@@ -691,6 +736,7 @@ def run(ctx):
     recv = rules_receive(ctx, f)
     audit(ctx, f, recv)
     no_trunc(ctx, f, recv)
+    handshake_fds_kept(ctx, f)
     fds_first(ctx, f, recv)
     seq_rules(ctx, f, recv)
     handoff(ctx, f, recv)
